@@ -50,8 +50,10 @@ fn decode_seq(b: &[u8], k: usize, opts: Opts, rcfg: &ReaderCfg) -> Result<Vec<Se
                 out.push((res.map(|m| from_crate_msg(&m)), r.len(), 0));
             }
         }
-        ReaderCfg::Slice => {
+        ReaderCfg::Slice | ReaderCfg::Reentrant { .. } => {
             let mon = Monitor::new(step_budget(b.len()) * k as u64 + 64, false);
+            // the nested use happens once, somewhere in the sequence
+            let _slot = arm_reentry(&mon, rcfg);
             let mut r = SimSlice::new(b, mon.clone());
             for i in 0..k {
                 let res = guard(|| Message::<&[u8]>::try_read_validate(&mut r, crate_opts(opts)))
